@@ -133,3 +133,8 @@ where
         Self { arithmetic: Default::default() }
     }
 }
+
+// Verification hook (add-only): compiled only under `cargo kani` or `--cfg heathcliff_verif`.
+#[cfg(any(kani, heathcliff_verif))]
+#[path = "/verif/incrate/util_dwthandler_v.rs"]
+pub(crate) mod verif_v;
